@@ -20,7 +20,8 @@ EXPLANATION = (
     "are single spaces at the end of a line that is one column short, where the next character is double-width, formatted like "
     "that character; columns < 2 raises ValueError."
 )
-NOT_DECIDED = "the compiled extension's real width table (the stand-in agrees with it on the alphabet used); longer texts, larger limits."
+NOT_DECIDED = ("the compiled extension's real width table (the stand-in agrees with it on the alphabet used); longer texts, larger limits; "
+               "lazy consumption: the generator is evaluated to its end in one go, so two iterators consumed alternately are not modelled.")
 
 A1, A2 = {"fg": 31}, {"bg": 44, "bold": True}
 WIDE, COMB = "Ｅ", "́"
@@ -54,8 +55,8 @@ def check(src, rep):
                 continue
             layouts = [[(text, A1)]]
             for cut in range(1, len(text)):
-                if text[cut] == COMB:
-                    continue
+                if text[cut] == COMB and text[cut:].strip(COMB):
+                    continue         # a run of ONLY combining characters is a legitimate run; one that starts with one and goes on is not built
                 layouts.append([(text[:cut], A1), (text[cut:], A2)])
             if text:
                 layouts.append([("", A2), (text, A1)])
